@@ -39,7 +39,7 @@ struct Obj {
 	bool has_sos = false;               // read from a file with SOS sets (the round-trip laws of C08/C09 do not speak about those)
 };
 
-struct FileInfo { std::string kind = "prob", fmt; LP model; bool damaged = false, precond = false, foreign = false, sos = false; int chain = 0; std::string cstat, rstat; };
+struct FileInfo { std::string kind = "prob", fmt; LP model; bool damaged = false, precond = false, foreign = false, sos = false, hit = false /* a damage op or a destructive fault touched the bytes */; int chain = 0; std::string cstat, rstat; };
 
 struct Client { std::vector<std::shared_ptr<Obj>> objs; std::vector<StoredBasis> bases; };
 
